@@ -190,6 +190,7 @@ Inductive vpred :=
 | PUnsigned (c : cmp) (k : N)
 | PStrEq (s : bytes)
 | PLenGt (n : nat)
+| PFloat (c : cmp) (k : Z)        (* the value read as a float (Reader.Float / WithFloat), integral values only *)
 | PTrue.
 
 Definition width_bits (v : value) : N := match v with V2 _ => 16 | V4 _ => 32 | V8 _ => 64 | _ => 0 end.
@@ -198,6 +199,35 @@ Definition signed_view (v : value) : Z :=
   let w := width_bits v in let n := raw v in
   if (w =? 0) then 0%Z else
   if n <? 2 ^ (w - 1) then Z.of_N n else (Z.of_N n - Z.of_N (2 ^ w))%Z.
+(* IEEE-754 binary64 / binary32 bit patterns of INTEGERS (|z| < 2^53 resp. 2^24): the float
+   columns are exercised with integral values, on which Go's float addition, comparison and
+   conversion are exact; every other bit pattern (fractions, NaN, infinities, -0 apart) decodes to
+   None and is only ever put and read back *)
+Definition fenc_gen (mbits ebias : N) (z : Z) : N :=
+  if (z =? 0)%Z then 0 else
+  let m := Z.to_N (Z.abs z) in
+  let e := N.log2 m in
+  let mant := m * 2 ^ (mbits - e) - 2 ^ mbits in
+  (if (z <? 0)%Z then 2 ^ (mbits + (if mbits =? 52 then 11 else 8)) else 0) + (e + ebias) * 2 ^ mbits + mant.
+Definition fdec_gen (mbits ebias : N) (n : N) : option Z :=
+  let ebits := if mbits =? 52 then 11 else 8 in
+  let sign := n / 2 ^ (mbits + ebits) in
+  let ef := (n / 2 ^ mbits) mod 2 ^ ebits in
+  let mant := n mod 2 ^ mbits in
+  if (ef =? 0) && (mant =? 0) then Some 0%Z else
+  if (ef <? ebias) || (ebias + mbits <? ef) then None else
+  let sh := mbits - (ef - ebias) in
+  let m := 2 ^ mbits + mant in
+  if m mod 2 ^ sh =? 0 then
+    let a := Z.of_N (m / 2 ^ sh) in Some (if sign =? 0 then a else (- a)%Z)
+  else None.
+Definition fenc64 := fenc_gen 52 1023.
+Definition fenc32 := fenc_gen 23 127.
+Definition fdec (v : value) : option Z :=
+  match v with V8 n => fdec_gen 52 1023 n | V4 n => fdec_gen 23 127 n | _ => None end.
+Definition fenc_like (v : value) (z : Z) : value :=
+  match v with V4 _ => V4 (fenc32 z) | _ => V8 (fenc64 z) end.
+
 Definition cmpZ (c : cmp) (a b : Z) : bool :=
   match c with CLt => (a <? b)%Z | CGe => (b <=? a)%Z | CEq => (a =? b)%Z end.
 Definition cmpN (c : cmp) (a b : N) : bool :=
@@ -208,6 +238,7 @@ Definition eval_pred (p : vpred) (v : value) : bool :=
   | PUnsigned c k => cmpN c (raw v) k
   | PStrEq s => bool_decide (vbytes_of v = s)
   | PLenGt n => Nat.ltb n (length (vbytes_of v))
+  | PFloat c k => match fdec v with Some z => cmpZ c z k | None => false end
   | PTrue => true
   end.
 
@@ -285,6 +316,9 @@ Inductive terminal :=
 | TSum (c : N)
 | TMin (c : N) (signed : bool)
 | TMax (c : N) (signed : bool)
+| TFSum (c : N)                     (* float columns holding integral values: the result as float bits *)
+| TFMin (c : N)
+| TFMax (c : N)
 | TAscend (x : N).
 
 Inductive stmt :=
@@ -323,6 +357,8 @@ Definition put_key (s : coll) (t : txn) (off : N) (k : bytes) : txn :=
 
 Definition sle (a b : value) : bool := (signed_view a <=? signed_view b)%Z.
 Definition ule (a b : value) : bool := raw a <=? raw b.
+Definition fle (a b : value) : bool :=
+  match fdec a, fdec b with Some x, Some y => (x <=? y)%Z | _, _ => false end.
 
 (* Go string order: bytewise lexicographic; ties broken by offset (the sorted index's comparator) *)
 Fixpoint bytes_cmp (a b : bytes) : comparison :=
@@ -365,6 +401,16 @@ Definition do_term (s : coll) (t : txn) (tm : terminal) : coll * txn * res :=
                         | Some v => RNum (raw v) true | None => RNum 0 false end)
   | TMax c sg => (s, t, match min_by (λ a b, if sg then sle b a else ule b a) (sel_values s t c) with
                         | Some v => RNum (raw v) true | None => RNum 0 false end)
+  | TFSum c => (s, t, let vs := sel_values s t c in
+                      match vs, mapM fdec vs with
+                      | v :: _, Some zs => RNum (raw (fenc_like v (foldr Z.add 0%Z zs))) true
+                      | [], _ => RNum 0 true
+                      | _, None => RNum 0 false
+                      end)
+  | TFMin c => (s, t, match min_by fle (sel_values s t c) with
+                      | Some v => RNum (raw v) true | None => RNum 0 false end)
+  | TFMax c => (s, t, match min_by (λ a b, fle b a) (sel_values s t c) with
+                      | Some v => RNum (raw v) true | None => RNum 0 false end)
   | TAscend xi => (s, t, RList (ascend_list s t xi))
   end.
 
